@@ -11,7 +11,9 @@ property text: checked = supported, not excluded, and - through a directory - no
 = scan's measurements of the file with length > 30, longest first, ties in scan order. A third of
 the trees contain symbolic links to files (inside the tree, into hidden / excluded folders, outside
 the root; two links to one target): for scan and for check a link is a file of its own, named by
-ITS path however it is reached (defect F26 was found this way; regression tree in FIXED)."""
+ITS path however it is reached (defect F26 was found this way; regression tree in FIXED). Round 5: sub-directories carry
+nested .gitignore files, names come from the Pygments / Unicode pools too, and every judged call is also judged by
+agreement alone (`agreement`): a non-hidden file below the argument is analysed by check iff scan analyses it."""
 import json
 import os
 import sys
@@ -47,7 +49,7 @@ def regen(ctx):
 # ------------------------------------------------------------------ cases
 
 def gen_case(rnd):
-    tree = sr.gen_tree(rnd, max_depth=rnd.choice([2, 3, 3, 4]))
+    tree = sr.gen_tree(rnd, max_depth=rnd.choice([2, 3, 3, 4]), printed_paths=True)
     patterns = sr.gen_patterns(rnd, tree)
     return {"tree": sr.tree_to_json(tree), "patterns": patterns, "sources": sr.split_sources(rnd, patterns)}
 
@@ -120,7 +122,7 @@ def observe(case, only=None, rnd=None):
             scan_err = None
         except Exception as e:
             scan_ms, scan_err = {}, "%s: %s" % (type(e).__name__, e)
-        table = {}
+        table = {SCAN_KEYS: None if scan_err else sorted(scan_ms)}
         for comps, data in files:
             lang = sr.real_lang_of(comps[-1])
             if lang is None:
@@ -198,6 +200,41 @@ def observe(case, only=None, rnd=None):
                                                  " ".join("%d %s" % (kind, sr.enc_path(comps)) for kind, comps in way), tail2)
                 runs.append(([[kind + 10, comps] for kind, comps in way], real, line, [sub], sens(way, sub, {tuple(p) for p in excl2})))
     return runs, table, scan_err
+
+
+SCAN_KEYS = "\x00scan-keys"      # entry of `table`: the keys of scan_path(".") (None if the scan raised)
+
+
+def agreement(case, way, real, table):
+    """the property's second sentence, judged on the two commands alone (no reading of the exclusion rules): every
+    non-hidden file below the argument (or the file argument itself) is analysed by check iff scan analyses it -
+    whatever makes scan skip a file (root or nested .gitignore, built-in list, configuration) must make check skip it"""
+    keys = table.get(SCAN_KEYS)
+    if keys is None or len(way) != 1 or way[0][0] not in (0, 2, 3) or real["error"]:
+        return []
+    kind, comps = way[0]
+    if kind != 0 and sr.spec_hidden(comps):
+        return []
+    keys = set(keys)
+    read = set(real["read"])
+    only_check, only_scan = [], []
+    for f, _data in sr.all_files(sr.tree_from_json(case["tree"])):
+        f = list(f)
+        if (f != comps) if kind == 0 else (f[:len(comps)] != comps):
+            continue
+        if sr.spec_hidden(f):
+            continue
+        k = "/".join(f)
+        if k in read and k not in keys:
+            only_check.append(k)
+        if k in keys and k not in read:
+            only_scan.append(k)
+    bad = []
+    if only_check:
+        bad.append("check analyses %s, which scan skips" % only_check[:4])
+    if only_scan:
+        bad.append("scan analyses %s, which check skips" % only_scan[:4])
+    return bad
 
 
 def canon(p, root, cwd=()):
@@ -285,7 +322,7 @@ def expected(case, way, table):
 def oracle(case, way, real, table):
     exp = expected(case, way, table)
     if exp is None:
-        return []
+        return agreement(case, way, real, table)
     checked, code = exp
     bad = []
     if real["error"]:
@@ -310,7 +347,7 @@ def oracle(case, way, real, table):
         bad.append("lines of one file are not contiguous")
     if real["code"] != code:
         bad.append("exit code %s, expected %d" % (real["code"], code))
-    return bad
+    return bad + agreement(case, way, real, table)
 
 
 def run_cases(cases, rnd):
@@ -324,6 +361,11 @@ def run_cases(cases, rnd):
         nl = len(sr.all_links(sr.tree_from_json(c["tree"])))
         stats["trees_with_symlinks"] = stats.get("trees_with_symlinks", 0) + (1 if nl else 0)
         stats["symlinks"] = stats.get("symlinks", 0) + nl
+        fl = sr.all_files(sr.tree_from_json(c["tree"]))
+        stats["nested_gitignore_files"] = stats.get("nested_gitignore_files", 0) + sum(1 for f, _ in fl if f[-1] == ".gitignore")
+        stats["names_by_pygments_pool"] = stats.get("names_by_pygments_pool", 0) + sum(
+            1 for f, _ in fl if sr.expected_language(f[-1]) and os.path.splitext(f[-1])[1] not in sr.SUPPORTED_EXT)
+        stats["non_ascii_paths"] = stats.get("non_ascii_paths", 0) + sum(1 for f, _ in fl if any(ord(ch) > 127 for ch in "/".join(f)))
         replies = common.run_driver([run[2] for run in runs])
         for run, reply in zip(runs, replies):
             way, real = run[0], run[1]
@@ -357,16 +399,17 @@ def run_cases(cases, rnd):
 
 def correspond(ctx):
     rnd = ctx.rng("trees")
-    n = ctx.pick(150, 2500)
+    n = ctx.pick(115, 2500)
     cases = [dict(c) for c in FIXED] + [gen_case(rnd) for _ in range(n)]
     dis, fails, stats, nontrivial = run_cases(cases, ctx.rng("ways"))
     stats["kinds"] = {"relative file": stats["kinds"][0], "absolute file (model only)": stats["kinds"][1],
                       "relative directory": stats["kinds"][2], "absolute directory": stats["kinds"][3],
                       "several arguments (model only)": stats["kinds"]["several"],
                       "working directory below the root (model only)": stats["kinds"]["cwd_below_root"]}
+    stats["names_with_control_characters_dropped"] = sr.DROPPED["names_with_control_characters"]
     return {
         "evaluations": stats["runs"], "distinct_nontrivial": len(nontrivial),
-        "rule": "%d random trees + %d fixed (generator of C11; functions of 3..75 lines incl. 30/31/60/61; Latin-1, malformed and empty files; a third of the trees with 1-3 symbolic links to files inside the tree - also in hidden / excluded folders - or outside it: a link is a file of its own for scan and for check, named by ITS path - also when it is reached by a relative file path and its target lies in an excluded folder or outside the root (defect F26, fixed; regression tree in FIXED)) x patterns of the 6 gitignore classes via option/.codelimit.yml/.gitignore; per tree: check on every file by relative path (and by absolute path, model comparison only), on every directory (root `.` and all sub-directories; hidden directories for the model comparison only) relatively and absolutely, one call with 2-3 arguments (model only), and ~6 calls from a working directory below the root incl. arguments outside it (model only); non-trivial = distinct (tree, patterns, way) with at least one listed function" % (n, len(FIXED)),
+        "rule": "%d random trees + %d fixed (generator of C11; functions of 3..75 lines incl. 30/31/60/61; Latin-1, malformed and empty files; a third of the trees with 1-3 symbolic links to files inside the tree - also in hidden / excluded folders - or outside it: a link is a file of its own for scan and for check, named by ITS path - also when it is reached by a relative file path and its target lies in an excluded folder or outside the root (defect F26, fixed; regression tree in FIXED)) x patterns of the 6 gitignore classes via option/.codelimit.yml/.gitignore; per tree: check on every file by relative path (and by absolute path, model comparison only), on every directory (root `.` and all sub-directories; hidden directories for the model comparison only) relatively and absolutely, one call with 2-3 arguments (model only), and ~6 calls from a working directory below the root incl. arguments outside it (model only); non-trivial = distinct (tree, patterns, way) with at least one listed function; the trees carry %d nested .gitignore files (lines drawn from the names beneath them), %d files whose language follows from a Pygments extension / whole-name pattern outside the classic pool (*.h, *.hh, *.mjs, *.pyi, BUILD.bazel, SConscript, ...) and %d paths with non-ASCII (NFC / NFD twin) or shell/JSON-awkward names; names with control characters (< U+0020; %d drawn and dropped) are not used here because check's listing is compared as PRINTED (rich expands TAB for the terminal: interpretation decision, Appendix A) - C11 keeps them for the exact key comparison; every judged call is ALSO judged by agreement alone: a non-hidden file below the argument is analysed by check iff scan_path(\".\") analyses it" % (n, len(FIXED), stats.get("nested_gitignore_files", 0), stats.get("names_by_pygments_pool", 0), stats.get("non_ascii_paths", 0), stats["names_with_control_characters_dropped"]),
         "samples": [], "exhaustive": False, "distribution": stats,
         "disagreements": dis[:50], "oracle_failures": sorted(fails, key=lambda f: len(json.dumps(f["input"], default=str)))[:50],
     }
